@@ -45,6 +45,15 @@ struct H3 {
     generation: String,
 }
 
+/// declared header names written with capitals (header names are case-insensitive)
+#[derive(Clone, Serialize, JsonSchema)]
+struct H4 {
+    #[serde(rename = "Cache-Control")]
+    cc: String,
+    #[serde(rename = "X-UPPER")]
+    up: String,
+}
+
 struct Got {
     status: u16,
     headers: Vec<(String, Vec<u8>)>,
@@ -247,8 +256,11 @@ fn expected_headers(
     ex_val: &[u8],
 ) -> Option<BTreeMap<String, Vec<Vec<u8>>>> {
     let mut m: BTreeMap<String, Vec<Vec<u8>>> = BTreeMap::new();
-    for (k, v) in declared {
-        if !legal_header_value(v) {
+    let overridden = matches!(ex, Explicit::InsertSame | Explicit::AppendSameTwice);
+    for (i, (k, v)) in declared.iter().enumerate() {
+        // an illegal declared value that is never sent (an explicit header of the same name replaces
+        // it) may be refused or not: the property only speaks about what is sent
+        if !legal_header_value(v) && !(i == 0 && overridden) {
             return None;
         }
         m.insert(k.to_string(), vec![v.to_vec()]);
@@ -310,7 +322,11 @@ fn check_headers(
     }
     let want = expected_headers(declared, ex, ex_val);
     let mut why: Vec<String> = vec![];
+    let unsent_illegal = !legal_header_value(declared[0].1) && matches!(ex, Explicit::InsertSame | Explicit::AppendSameTwice);
     match (&want, &r) {
+        (Some(_), Err(_)) if unsent_illegal => {
+            cn.refused.fetch_add(1, Ordering::Relaxed);
+        }
         (None, Err(_)) => {
             cn.refused.fetch_add(1, Ordering::Relaxed);
         }
@@ -369,7 +385,7 @@ fn run_headers(ctx: &Ctx, cn: &Cn, samples: &Samples) {
         let Some(s1) = s(v1) else { continue };
         for ex in exs {
             for ev in ex_vals {
-                let order: Vec<usize> = if round % 2 == 0 { vec![0, 1, 2, 3] } else { vec![3, 2, 1, 0] };
+                let order: Vec<usize> = if round % 2 == 0 { vec![0, 1, 2, 4, 3] } else { vec![3, 4, 2, 1, 0] };
                 for which in order {
                     match which {
                         0 => {
@@ -391,6 +407,11 @@ fn run_headers(ctx: &Ctx, cn: &Cn, samples: &Samples) {
                             let mut r = HttpResponseHeaders::new(HttpResponseCreated(1u32), H3 { etag: s1.clone(), generation: "7".into() });
                             apply_explicit(&mut r, "etag", ex, ev);
                             check_headers(ctx, "Created+H3", 201, false, &[("etag", v1), ("x-gen", b"7")], ex, ev, collect(r.to_result()), cn, samples);
+                        }
+                        4 => {
+                            let mut r = HttpResponseHeaders::new(HttpResponseAccepted(1u32), H4 { cc: s1.clone(), up: "U".into() });
+                            apply_explicit(&mut r, "cache-control", ex, ev);
+                            check_headers(ctx, "Accepted+H4(capitalised names)", 202, false, &[("cache-control", v1), ("x-upper", b"U")], ex, ev, collect(r.to_result()), cn, samples);
                         }
                         _ => {
                             // a redirect in between (its header struct is a fourth type)
@@ -711,7 +732,7 @@ fn main() {
         "live_slice": wire,
         "evaluations": cn.evals.load(Ordering::Relaxed),
         "distinct_nontrivial": cn.nontrivial.load(Ordering::Relaxed),
-        "rule": "bodies: full product of field value lists (strings incl. all C0 controls/DEL/U+2028/non-BMP, integer and float extremes, options, byte vectors, maps) x {Ok,Created,Accepted,Headers<Ok>}: status, content-type, body parses back bit-exactly. headers: declared value list (empty, visible ASCII, obs-text, every C0 byte and DEL in the middle, leading/trailing space) x 4 explicit operations x 2 explicit values x 4 header-struct types interleaved in alternating order: legality decided by http::HeaderValue::from_bytes; present-with-exact-bytes / overridden / refused. redirects: 3 kinds x locations ('/'+c and c for all 256 Latin-1 code points, empty, 10 kB, non-BMP, URL; thorough: + U+0100..U+2100 and all Latin-1 x 8 second characters). Non-trivial = cases that reached serialisation (every body case; header cases with an explicit operation; accepted redirects); all cases distinct by construction.",
+        "rule": "bodies: full product of field value lists (strings incl. all C0 controls/DEL/U+2028/non-BMP, integer and float extremes, options, byte vectors, maps) x {Ok,Created,Accepted,Headers<Ok>}: status, content-type, body parses back bit-exactly. headers: declared value list (empty, visible ASCII, obs-text, every C0 byte and DEL in the middle, leading/trailing space) x 4 explicit operations x 2 explicit values x 5 header-struct types (one with capitalised declared names) interleaved in alternating order: legality decided by http::HeaderValue::from_bytes; present-with-exact-bytes / overridden / refused. redirects: 3 kinds x locations ('/'+c and c for all 256 Latin-1 code points, empty, 10 kB, non-BMP, URL; thorough: + U+0100..U+2100 and all Latin-1 x 8 second characters). Non-trivial = cases that reached serialisation (every body case; header cases with an explicit operation; accepted redirects); all cases distinct by construction.",
         "body_cases": after_bodies, "header_cases": after_headers - after_bodies, "redirect_and_empty_cases": cn.evals.load(Ordering::Relaxed) - after_headers,
         "refused_as_expected": cn.refused.load(Ordering::Relaxed),
         "exhaustive": true,
